@@ -25,14 +25,19 @@ Get(kv, k) == LET S == {i \in 1..Len(kv) : kv[i][1] = k}
               IN IF S = {} THEN <<"-absent-">> ELSE Unescape(kv[CHOOSE i \in S : \A j \in S : j <= i][2])
 Has(kv, k) == \E i \in 1..Len(kv) : kv[i][1] = k
 
+IsNumber(v) == Len(v) > 0 /\ \A i \in 1..Len(v) : v[i] \in {"0", "1", "2", "3", "4", "5", "6", "7", "8", "9"}
+LocalHost == <<"l", "o", "c", "a", "l", "h", "o", "s", "t">>
+
 (* what a client dials for one entry; "skip": nothing this client can use (an unknown transport, or a unix entry
    naming neither path nor abstract nor tmpdir) - the remaining entries must still be tried *)
 Endpoint(e) ==
     CASE e.transport = "unix" /\ Has(e.kv, "path") -> [kind |-> "unix", where |-> Get(e.kv, "path"), port |-> <<>>]
       [] e.transport = "unix" /\ ~Has(e.kv, "path") /\ Has(e.kv, "abstract") ->
              [kind |-> "unix", where |-> <<"NUL">> \o Get(e.kv, "abstract"), port |-> <<>>]
-      [] e.transport \in {"tcp", "nonce-tcp"} /\ Has(e.kv, "host") /\ Has(e.kv, "port") ->
-             [kind |-> "tcp", where |-> Get(e.kv, "host"), port |-> Get(e.kv, "port")]
+      [] e.transport \in {"tcp", "nonce-tcp"} /\ Has(e.kv, "port") /\ IsNumber(Get(e.kv, "port")) ->
+             \* (an entry that names no host means the local one, as in the reference implementation; one without a
+             \* usable port cannot be dialled)
+             [kind |-> "tcp", where |-> IF Has(e.kv, "host") THEN Get(e.kv, "host") ELSE LocalHost, port |-> Get(e.kv, "port")]
       [] OTHER -> [kind |-> "skip", where |-> <<>>, port |-> <<>>]
 
 Endpoints(a) == SelectSeq([i \in 1..Len(a) |-> Endpoint(a[i])], LAMBDA x : x.kind # "skip")
@@ -58,6 +63,10 @@ Entries == {
     [transport |-> "tcp", kv |-> <<<<"host", Host>>, <<"port", Port>>>>],
     [transport |-> "tcp", kv |-> <<<<"port", Port>>, <<"host", Host>>, <<"family", P(<<"i">>)>>>>],
     [transport |-> "nonce-tcp", kv |-> <<<<"host", Host>>, <<"port", Port>>, <<"noncefile", PathPlain>>>>],
+    [transport |-> "tcp", kv |-> <<<<"port", Port>>>>],
+    [transport |-> "tcp", kv |-> <<<<"host", Host>>>>],
+    [transport |-> "tcp", kv |-> <<<<"host", Host>>, <<"port", P(<<"4", "x">>)>>>>],
+    [transport |-> "nonce-tcp", kv |-> <<<<"noncefile", PathPlain>>>>],
     [transport |-> "autolaunch", kv |-> <<>>],
     [transport |-> "systemd", kv |-> <<>>],
     [transport |-> "unixexec", kv |-> <<<<"path", PathPlain>>>>] }
